@@ -55,7 +55,28 @@ def start(vkind, n, M, V, seed):
     if vkind == "lowp":  # a start vector in a narrower dtype than the operator: the decomposition is computed in the promoted dtype
         return rnd(n).astype(np.complex64 if cplx else np.float32), n
     if vkind == "intvec":
-        return P.ints(g, (n, ), -3, 3, nonzero=True).astype(np.int64), n
+        v = P.ints(g, (n, ), -3, 3, nonzero=True).astype(np.int64)
+        # an integer vector may lie in an invariant subspace of an integer matrix: the Krylov dimension is its exact rational rank
+        if np.all(M == np.round(M.real)):
+            from fractions import Fraction
+            rows, w = [], [Fraction(int(x)) for x in v]
+            Mi = [[Fraction(int(round(x.real))) for x in r] for r in M]
+            for _ in range(n):
+                rows.append(list(w))
+                w = [sum(Mi[i][j] * w[j] for j in range(n)) for i in range(n)]
+            rank = 0
+            for col in range(n):
+                piv = next((r for r in range(rank, n) if rows[r][col] != 0), None)
+                if piv is None:
+                    continue
+                rows[rank], rows[piv] = rows[piv], rows[rank]
+                for r in range(rank + 1, n):
+                    f = rows[r][col] / rows[rank][col]
+                    rows[r] = [a - f * b for a, b in zip(rows[r], rows[rank])]
+                rank += 1
+            if rank < n:
+                return None, None  # counted, not judged: the eigen-structure of that subspace is not prescribed
+        return v, n
     if vkind == "batch":
         return rnd(n, 2), n
     if vkind == "batchmix":  # a vector in a 1-dimensional invariant subspace next to a generic one
@@ -150,9 +171,56 @@ def run_option(case, seed):
     return {"states": n + 1, "transitions": ntr, "outcome": f"opt:{opt}:{len(vio)}", "violations": vio}
 
 
+def run_scale(case, seed):
+    """a batch whose columns live at different scales of the operator: A = blockdiag(2^30 B1, B2), one generic start vector and one supported on the
+    second block.  Every per-column quantity (exhaustion test, normalisation) must use that column's own scale: the batched decomposition of a column
+    has to agree with the decomposition of the same vector run alone, on the columns of its own Krylov space."""
+    _, n1, n2, cplx, tol = case
+    g = P.rng(seed, "c15scale", n1, n2, cplx)
+    rnd = lambda *s: g.standard_normal(s) + (1j * g.standard_normal(s) if cplx else 0)  # noqa: E731
+    B1, B2 = rnd(n1, n1) + 3 * np.eye(n1), rnd(n2, n2) + 3 * np.eye(n2)
+    n = n1 + n2
+    M = np.zeros((n, n), dtype=B1.dtype)
+    M[:n1, :n1], M[n1:, n1:] = 2.0**30 * B1, B2
+    v0, v1 = rnd(n), np.concatenate([np.zeros(n1), rnd(n2)])
+    Vb = np.stack([v0, v1], axis=1)
+    vio, ntr = [], 0
+
+    def bad(sym, detail, m):
+        key = f"C15|batch-columns-at-different-scales|{sym}|{'c' if cplx else 'r'},tol={tol}"
+        if not any(x["key"] == key for x in vio):
+            vio.append({"key": key, "what": f"batched arnoldi, columns at different operator scales: {sym}", "detail": {**detail, "max_iters": m, "n1": n1, "n2": n2}})
+
+    with warnings.catch_warnings():
+        warnings.simplefilter("ignore")
+        from cola.backends import np_fns
+        for m in range(2, n + 2):
+            ntr += 1
+            try:
+                Qb, Hb, _ = arnoldi(ops.Dense(M), Vb.copy(), max_iters=m, tol=tol)
+                Qb = np.asarray(Qb.to_dense())
+                Hb = np.asarray(np_fns.vmap(Hb.__class__.to_dense)(Hb))
+                Q1, H1, _ = arnoldi(ops.Dense(M), v1.copy(), max_iters=m, tol=tol)
+                Q1, H1 = np.asarray(Q1.to_dense()), np.asarray(H1.to_dense())
+            except Exception as e:
+                bad(f"exc:{type(e).__name__}", {"msg": str(e)[:200]}, m)
+                continue
+            k = min(m, n2)  # Krylov dimension of the second column within the cap
+            Qc, Hc = Qb[1][:, :k], Hb[1][:k, :k]
+            if np.max(np.abs(Qc.conj().T @ Qc - np.eye(k))) > 1e-8:
+                bad("Q-not-orthonormal-on-its-own-Krylov-space", {"err": float(np.max(np.abs(Qc.conj().T @ Qc - np.eye(k)))), "column_norms": np.linalg.norm(Qc, axis=0).tolist()}, m)
+            elif np.max(np.abs(Qc.conj().T @ M @ Qc - Hc)) > 1e-8 * np.linalg.norm(B2, 2):
+                bad("H-is-not-Q^H-A-Q-at-the-column-scale", {"err": float(np.max(np.abs(Qc.conj().T @ M @ Qc - Hc)))}, m)
+            if Q1.shape[1] >= k and np.max(np.abs(Q1[:, :k] - Qc)) > 1e-7:
+                bad("batched-column-differs-from-the-same-vector-alone", {"err": float(np.max(np.abs(Q1[:, :k] - Qc)))}, m)
+    return {"states": n, "transitions": ntr * 3, "outcome": f"scale:{len(vio)}", "violations": vio}
+
+
 def run_case(case, seed):
     if case[0] == "OPT":
         return run_option(case, seed)
+    if case[0] == "SCALE":
+        return run_scale(case, seed)
     fam, n, cplx, vkind, tol, entry, ms = case
     vio, ntr = [], 0
     h = hashlib.sha256()
@@ -269,6 +337,10 @@ def cases(tier, seed):
     for n in (3, 5, 8):
         for cplx in (False, True):
             out.append(["OPT", "use_householder", n, cplx])
+    for n1, n2 in ((3, 3), (4, 2), (2, 5)):
+        for cplx in (False, True):
+            for tol in (1e-12, 1e-7, 1e-3):
+                out.append(["SCALE", n1, n2, cplx, tol])
     return out
 
 
